@@ -1,20 +1,10 @@
 #!/bin/bash
-# Development helper: which checks fire on which seeded change. Analyses scratch
-# copies of /repo (never /repo itself). Output: refactors/MATRIX.txt
+# Development helper: which checks fire on which behaviour-preserving refactoring
+# (must be none). Analyses scratch copies of /repo. Output: refactors/MATRIX.txt
 cd /verif; ./build.sh || exit 2
-PROPS=$(./bin/rsyncverif -prop list)
 OUT=/verif/refactors/MATRIX.txt; : > $OUT.tmp
 for d in refactors/${RF_GLOB:-*}.diff; do
-  true
   name=$(basename $d .diff)
-  S=$(mktemp -d /tmp/rsyncverif-matrix.XXXXXX); mkdir -p $S/repo
-  (cd /repo && tar --exclude=.git -cf - .) | tar -xf - -C $S/repo
-  if ! (cd $S/repo && patch -p1 -s --no-backup-if-mismatch < /verif/$d >/dev/null 2>&1); then echo "$name: patch does not apply" >> $OUT.tmp; rm -rf $S; continue; fi
-  for p in $PROPS; do
-    ( mkdir -p $S/v-$p/evidence; cp known_findings.json $S/v-$p/; out=$(./bin/rsyncverif -repo $S/repo -verif $S/v-$p -prop $p -tier quick 2>&1); rc=$?
-      if [ $rc -ne 0 ]; then echo "$p[$(echo "$out" | grep -E '^(VIOLATED|UNDECIDED)' | sed -E 's/^[A-Z]+ rule=([^ ]+).*/\1/' | sort -u | tr '\n' ',' | sed 's/,$//')$(echo "$out" | grep -q '^CHECK-FAILURE' && echo ' +check-failure')]" > $S/res-$p; fi ) &
-  done; wait
-  echo "$name: $(cat $S/res-* 2>/dev/null | tr '\n' ' ')" >> $OUT.tmp
-  rm -rf $S
+  echo "$name: $(tools/allprops.sh /verif/$d 2>/dev/null)" >> $OUT.tmp
 done
 mv $OUT.tmp $OUT; cat $OUT
